@@ -62,7 +62,18 @@ def build(cs, valid_only=False):
     if rng.random() < 0.5:
         hy['part_entry'] = rng.choice([1, 2, 3, 4])
     if rng.random() < 0.3:
-        hy['part_offset'] = rng.choice([0, 1, 63, 2048]) if not valid_only else rng.choice([0, 1, 7, 63])
+        hy['part_offset'] = rng.choice([0, 1, 63, 64, 300, 2048, 5000]) if not valid_only else rng.choice([0, 1, 7, 63])
+    if not valid_only and rng.random() < 0.12:
+        # a partition that starts in cylinder 256 or later of a small geometry (the start CHS
+        # needs the two high cylinder bits); the ISO is made large enough to contain the offset
+        gs_, gh_ = rng.choice([1, 2, 3]), rng.choice([1, 2, 3])
+        hy['geometry_sectors'], hy['geometry_heads'] = gs_, gh_
+        hy['part_offset'] = gs_ * gh_ * rng.choice([256, 257, 300, 511, 512, 700, 1023])
+        filler = {'op': 'add_fp', 'cid': h.gen.new_cid(), 'length': hy['part_offset'] * 512 + rng.choice([5000, 100000]),
+                  'iso_path': '/ZFILL' + (';1' if cfg.level < 4 else '')}
+        if cfg.rr:
+            filler['rr_name'] = 'zfill'
+        h.apply(filler)
     if rng.random() < 0.4:
         hy['mbr_id'] = rng.choice([0, 1, 0xdeadbeef, 0xffffffff])
     if rng.random() < 0.3:
@@ -97,7 +108,26 @@ def build(cs, valid_only=False):
     h.apply(hy)
     # edits that move the boot files
     if marker is None:
-        h.extend(rng.choice([0, 0, 3, 8]))
+        y = rng.random()
+        if y < 0.35:
+            # the hybrid data was computed once (a write, a query, or a reopen of the mastered hybrid
+            # image); later edits grow or shrink the ISO, possibly without moving the boot images
+            z = rng.random()
+            if z < 0.4:
+                h.apply({'op': 'q_write'})
+            elif z < 0.6:
+                h.apply({'op': 'force_consistency'})
+            else:
+                h.reopen(reuse=rng.random() < 0.3)
+            for _ in range(rng.choice([1, 2, 4])):
+                big = {'op': 'add_fp', 'cid': h.gen.new_cid(), 'length': rng.choice([1, 40000, 700000, 1200000]),
+                       'iso_path': join('/', 'ZZ' + h.gen.iso_file_name(cfg.level)[:6].lstrip('.') + (';1' if cfg.level < 4 else ''))}
+                if cfg.rr:
+                    big['rr_name'] = h.gen.rr_name(0)
+                h.apply(big)
+            h.extend(rng.choice([0, 2]))
+        else:
+            h.extend(rng.choice([0, 0, 3, 8]))
     ops = list(h.ops)
     if marker is not None:
         ops.insert(marker, {'op': 'reopen'})
@@ -118,9 +148,20 @@ def check(cfg, ops, seed, counters):
         need = (2 if m.hybrid.get('mac') else 1) if (m.hybrid.get('efi') or m.hybrid.get('mac')) else 0
         pe = m.hybrid.get('part_entry', 1)
         clash = (m.hybrid.get('efi') and pe == 2) or (m.hybrid.get('mac') and pe == 3)
-        if n_efi_sections != need or (m.hybrid.get('part_offset', 0) * 512 >= 32768) or clash:
+        if n_efi_sections != need or clash:
             # not a combination the documentation describes (efi needs one EFI section,
             # mac two; offsets beyond the system area): not this property's subject
+            counters['skipped_invalid_combination'] = counters.get('skipped_invalid_combination', 0) + 1
+            sess.close()
+            return []
+    if m.hybrid is not None and m.hybrid.get('part_offset', 0) * 512 >= 32768:
+        # a partition offset at or beyond the end of the ISO describes no partition at all: not a
+        # combination the documentation describes.  The size of the ISO part is that of the twin
+        # mastered without add_isohybrid.
+        tw0 = driver.replay(cfg, [o for o in ops if o['op'] != 'add_isohybrid'], seed)
+        timg0, toc0 = tw0.write()
+        tw0.close()
+        if not toc0.ok or m.hybrid['part_offset'] * 512 >= len(timg0.getvalue()):
             counters['skipped_invalid_combination'] = counters.get('skipped_invalid_combination', 0) + 1
             sess.close()
             return []
